@@ -365,7 +365,7 @@ def shard_fn(shard, nshards, seed, tier, exe, npairs, ncopies):
 def run(tier, seed):
     bdir = build.build("asan")
     chk = core.Check(PID, tier, seed)
-    npairs, ncopies = (24000, 6000) if tier == "quick" else (1500000, 200000)
+    npairs, ncopies = (96000, 32000) if tier == "quick" else (1500000, 200000)
     sh = core.parallel(shard_fn, seed=seed, tier=tier, exe=bdir + "/jcdrv", npairs=npairs, ncopies=ncopies)
     chk.absorb(sh)
     chk.rule = ("triples (a,b,c): b independent / one deep mutation of a (scalar replaced by a near value of the same or another kind, bytes after an embedded NUL, null vs absent member, added element) / "
